@@ -64,6 +64,13 @@ type Warmup struct {
 	From   uint64 `json:"from"`
 	Stride uint64 `json:"stride"`
 	Count  int    `json:"count"`
+	// OnlyIfNeeded: the engine builds a fresh instance per run, so a violation normally replays
+	// alone. If it does not, the code under test keeps state between instances (package-level
+	// variables: a free list, a cache) and the replay re-executes the preceding runs first.
+	OnlyIfNeeded bool `json:"only_if_needed,omitempty"`
+	// Unminimised: the tape as first recorded, tried after the warm-up when the minimised one
+	// does not reproduce (minimisation ran in a process whose kept state had moved on).
+	Unminimised map[string][]uint32 `json:"unminimised_tape,omitempty"`
 }
 
 // crossRunner is implemented by engines whose system under test outlives a run.
@@ -287,9 +294,9 @@ func batch(args []string) {
 				continue
 			}
 			seenClass[v.Class()] = true
-			var wu *Warmup
+			wu := &Warmup{From: *from, Stride: *stride, Count: k, OnlyIfNeeded: true}
 			if cr, ok := e.(crossRunner); ok && cr.CrossRunState() {
-				wu = &Warmup{From: *from, Stride: *stride, Count: k}
+				wu.OnlyIfNeeded = false
 			}
 			ref := record(e, *seed, idx, rs, t, v, *replays, !res.Poisoned, wu)
 			sum.Violations = append(sum.Violations, ref)
@@ -364,6 +371,9 @@ func record(e eng.Engine, master, idx, rs uint64, t *tape.Tape, v eng.Violation,
 			note = "violation did not reproduce in-process from its own tape"
 		}
 	}
+	if wu != nil && wu.OnlyIfNeeded {
+		wu.Unminimised = rec
+	}
 	rf := ReplayFile{Property: v.Property, Engine: e.Name(), Rule: v.Rule, MasterSeed: master, RunIndex: idx, RunSeed: rs,
 		Build: map[string]any{"tags": "verif", "race": sched.RaceOn, "autoyield": world.AutoMode}, Tape: tt.Record(), SchedHash: strconv.FormatUint(r.SchedHash, 16),
 		Violation: *fv, Trace: r.Trace, Original: orig, Attempts: attempts, Note: note, Warmup: wu}
@@ -402,7 +412,7 @@ func replay(args []string) {
 		return
 	}
 	e := getEngine(rf.Engine)
-	if rf.Warmup != nil {
+	if rf.Warmup != nil && !rf.Warmup.OnlyIfNeeded {
 		for k := 0; k < rf.Warmup.Count; k++ {
 			i := rf.Warmup.From + uint64(k)*rf.Warmup.Stride
 			e.Run(tape.New(tape.RunSeed(rf.MasterSeed, i)), eng.Opts{})
@@ -428,6 +438,29 @@ func replay(args []string) {
 		fmt.Printf("replay: reproduced %s\n%s\n", class, v.Detail)
 		fmt.Printf("VIOLATION property=%s replay=%s\n", rf.Property, *file)
 		os.Exit(1)
+	}
+	if rf.Warmup != nil && rf.Warmup.OnlyIfNeeded && rf.Warmup.Count > 0 {
+		fmt.Printf("replay: not reproduced alone; re-executing the %d runs that preceded it in its worker process (the code under test may keep state between instances)\n", rf.Warmup.Count)
+		for k := 0; k < rf.Warmup.Count; k++ {
+			i := rf.Warmup.From + uint64(k)*rf.Warmup.Stride
+			e.Run(tape.New(tape.RunSeed(rf.MasterSeed, i)), eng.Opts{})
+		}
+		tapes := []map[string][]uint32{rf.Tape}
+		if rf.Warmup.Unminimised != nil {
+			tapes = append(tapes, rf.Warmup.Unminimised)
+		}
+		for ti, tp := range tapes {
+			res = e.Run(tape.Replay(rf.RunSeed, tp), eng.Opts{Trace: true})
+			if v := hasClass(res, class); v != nil {
+				which := "the minimised tape"
+				if ti == 1 {
+					which = "the tape as first recorded"
+				}
+				fmt.Printf("replay: reproduced %s with %s after the preceding runs: the violation depends on state that outlives an instance\n%s\n", class, which, v.Detail)
+				fmt.Printf("VIOLATION property=%s replay=%s\n", rf.Property, *file)
+				os.Exit(1)
+			}
+		}
 	}
 	var other []string
 	for _, v := range res.Violations {
